@@ -144,6 +144,11 @@ struct ItemCfg {
 	/// `impl<G> Trait for Type` → `impl<G> Type`), so one method can be verified against the trait's clause
 	#[serde(default)]
 	as_inherent: bool,
+	/// R2: a trait impl with one selected method is emitted as a free function of this name
+	/// (the trait impl header is dropped; call sites are rewritten by sidecar `replace` rules).
+	/// Needed where the method needs a `requires` (Verus forbids them on trait impls) on a foreign Self type.
+	#[serde(default)]
+	as_free: Option<String>,
 }
 
 #[derive(Deserialize, Clone, Debug)]
@@ -1037,6 +1042,7 @@ fn parse_sel(s: &str) -> Vec<String> {
 // ---------------------------------------------------------------- per-item rendering
 
 struct Ctx<'a> {
+	self_ty_span: Option<(usize, usize)>,
 	mode: &'a str,
 	canary: bool,
 	canary_fns: Option<Vec<String>>,
@@ -1202,12 +1208,17 @@ fn fn_edits(
 	let resname = cfg.ret.clone().unwrap_or_else(|| "res".to_string());
 	if let syn::ReturnType::Type(_, ty) = &sig.output {
 		let (s, e) = br(ty.span());
+		// R2: `Self` in the return type of a trait-impl method emitted as a free function is the impl's self type
+		let (ts, te) = match (&**ty, ctx.self_ty_span) {
+			(syn::Type::Path(tp), Some(sp)) if tp.path.is_ident("Self") => sp,
+			_ => (s, e),
+		};
 		v.push(
 			s,
 			e,
 			vec![
 				Part::Text(format!("({}: ", resname)),
-				Part::Src(s, e),
+				Part::Src(ts, te),
 				Part::Text(")".to_string()),
 			],
 			"A1",
@@ -1446,6 +1457,7 @@ fn main() {
 	let mut ctx = Ctx {
 		mode: &mode,
 		canary,
+		self_ty_span: None,
 		canary_fns: canary_fns.clone(),
 		out: Out {
 			buf: String::new(),
@@ -1555,7 +1567,11 @@ fn main() {
 						*ctx.rules.entry("R1".into()).or_insert(0) += 1;
 					}
 				}
-				ranges.push((hdr_start, bo + 1));
+				if it.as_free.is_none() {
+					ranges.push((hdr_start, bo + 1));
+				} else {
+					*ctx.rules.entry("R2".into()).or_insert(0) += 1;
+				}
 				let mut found_names = vec![];
 				for ii in &im.items {
 					match ii {
@@ -1570,7 +1586,11 @@ fn main() {
 							let w = br(f.span());
 							let fc = it.fns.get(&name).cloned().unwrap_or_default();
 							let stub = if it.stub { Some(it.stub_home.clone().unwrap_or_default()) } else { None };
-							if matches!(f.vis, syn::Visibility::Inherited) && (im.trait_.is_none() || it.as_inherent) {
+							if let Some(free) = &it.as_free {
+								let (a, b) = br(f.sig.ident.span());
+								edits.push(Edit { start: a, end: b, parts: vec![Part::Text(free.clone())], rule: "R2".into(), seq: 0 });
+							}
+							if matches!(f.vis, syn::Visibility::Inherited) && (im.trait_.is_none() || it.as_inherent || it.as_free.is_some()) {
 								let a = f.sig.constness.map(|c| br(c.span()).0).or(f.sig.asyncness.map(|c| br(c.span()).0)).unwrap_or(br(f.sig.fn_token.span()).0);
 								edits.push(Edit { start: a, end: a, parts: vec![Part::Text("pub ".into())], rule: "A5".into(), seq: usize::MAX / 4 });
 							}
@@ -1578,8 +1598,10 @@ fn main() {
 								syn::Type::Path(tp) => tp.path.segments.last().map(|s| s.ident.to_string()).unwrap_or_default(),
 								_ => String::new(),
 							};
-							let qual = format!("{}::{}", self_ty, name);
-							fn_edits(&mut ctx, src, &name, &f.attrs, &f.sig, &f.block, &fc, &it.replace, w, &mut edits, im.trait_.is_some() && !it.as_inherent, stub, &qual);
+							let eff_name = it.as_free.clone().unwrap_or(name.clone());
+							let qual = if it.as_free.is_some() { eff_name.clone() } else { format!("{}::{}", self_ty, name) };
+							ctx.self_ty_span = if it.as_free.is_some() { Some(br(im.self_ty.span())) } else { None };
+							fn_edits(&mut ctx, src, &eff_name, &f.attrs, &f.sig, &f.block, &fc, &it.replace, w, &mut edits, im.trait_.is_some() && !it.as_inherent && it.as_free.is_none(), stub, &qual);
 							ranges.push(w);
 						}
 						syn::ImplItem::Type(t) if sel.is_none() => ranges.push(br(t.span())),
@@ -1594,7 +1616,9 @@ fn main() {
 						}
 					}
 				}
-				ranges.push((bc, bc + 1));
+				if it.as_free.is_none() {
+					ranges.push((bc, bc + 1));
+				}
 			}
 			Found::Struct(s) => {
 				let whole = br(s.span());
